@@ -312,7 +312,16 @@ fn history(front: Front, reg: Reg, rng: &mut Prng, col: &mut Collector) {
             next_target = *rng.pick(&targets);
             let kind = rng.below(6);
             dl_confirmed = rng.chance(1, 3);
-            let f = net.downlink(&Down { fcnt: fcnt_down + 1, confirmed: dl_confirmed, port: if rng.bool() { Some(9) } else { None }, payload: &[], ..Default::default() });
+            // one accepted downlink in three commands a transmit power (LinkADRReq, rate and mask kept): the
+            // connectivity count and the rate steps at 96, 128, ... are what they are without it
+            let power_cmd: Vec<u8> = if rng.chance(1, 3) {
+                let p = rng.range(1, 6) as u8;
+                col.event("linkadr_power_downlinks");
+                if reg.fixed() { link_adr_req(15, p, 0x00FF, 6, 1) } else { link_adr_req(15, p, (1u16 << reg.default_channels().len()) - 1, 0, 1) }
+            } else {
+                vec![]
+            };
+            let f = net.downlink(&Down { fcnt: fcnt_down + 1, confirmed: dl_confirmed, f_opts: &power_cmd, port: if rng.bool() { Some(9) } else { None }, payload: &[], ..Default::default() });
             match kind {
                 0 | 1 => {
                     script.rx1.push(f);
